@@ -11,7 +11,8 @@ Search: inside the harness the property is evaluated directly on the real output
 writes of the successful transactions, read isolation, events kept, and re-execution of the block without its
 failed transactions) -> r.Viol with the concrete block.
 Static side condition of ok_tx_keeps_all (no shipped contract continues after a failed nested call): no caller of
-NativeService.NativeCall / Invoke exists under native/service (scan by extract/guards `nativecall`).
+NativeService.NativeCall / Invoke and of CacheDB.Commit / Reset exists under native/service (type-resolved scan by
+extract/callgraph, field `callers`).
 """
 
 
@@ -25,15 +26,16 @@ def run(ctx):
         "ghost fields effLog/swallowed of the model record effects and swallowed nested failures; they influence no other field",
     ]
     ctx.cov["trusted_base"] += ["harness hnative/atomic (scripted contract + ledger glue) + drv_native (correspondence check)",
-                                "Lean compiler for the driver", "extract/guards nativecall scan (go/parser)"]
+                                "Lean compiler for the driver", "extract/callgraph `callers` scan (go/types)"]
     ctx.lean_props()
     # static side condition: nobody under native/ calls NativeCall / CacheDB.Commit / CacheDB.Reset
-    out = ctx.run_extract("guards", ["nativecall"])
+    out = ctx.run_extract("callgraph", ["json"], timeout=1800)
     if out is not None:
         import json
         facts = json.loads(out)
-        ctx.cov["nativecall_scan"] = facts
-        for site in facts.get("callers", []):
+        ctx.cov["nativecall_scan"] = {"callers_in_native_service": facts.get("callers") or [],
+                                      "scanned_functions": facts.get("module_functions")}
+        for site in facts.get("callers") or []:
             ctx.violate("C15:nested-call-site:%s" % site["func"],
                         "contract code calls %s at %s: the hypothesis `swallowed = 0` of ok_tx_keeps_all is no longer "
                         "guaranteed statically (a handler that continues after a failed nested call loses its earlier events)"
